@@ -10,6 +10,8 @@ JOBS = [
     dict(job=('specs.tr_units', 'w_out', {'mode': 'recording'}), props=['C01', 'C02', 'C03', 'C04', 'C05', 'C09'], cases='w_out'),
     dict(job=('specs.tr_units', 'w_op_recording', {}), props=['C03', 'C04', 'C05', 'C09', 'C17', 'C18'], cases='w_op'),
     dict(job=('specs.tr_units', 'w_op_passthrough', {'mode': 'disabled'}), props=['C04']),
+    # statement-level thread interference (thorough tier only: ~10 minutes)
+    dict(job=('specs.tr_units', 'w_in_recording_interference', {'case': {'dh': 'none', 'res': 'none', 'fb': 'none'}}), props=['C04'], tier='thorough'),
     dict(job=('specs.tr_units', 'w_op_playback', {}), props=['C01', 'C02', 'C03']),
     dict(job=('specs.tr_units', 'play', {}), props=['C01', 'C02', 'C03', 'C09', 'C08', 'C19']),
     # ---- small public / helper methods of the recorder (function-level contracts, every state under the class invariant)
@@ -112,6 +114,8 @@ def native_witness(name, prop, script, finding=None, args=()):
 
 def extra_for(prop, tier, seed):
     out = []
+    if prop == 'C04':
+        out.append(native_witness('C04/native/cross_thread_discard_between_check_and_write', 'C04', 'replay/witness/c04_cross_thread_discard.py', 'C04-cross-thread-discard-window'))
     if prop == 'C07':
         out.append(native_witness('C07/native/s3_data_key_named__metadata_round_trip', 'C07', 'replay/witness/c07_reserved_keys.py', 'C07-s3-metadata-key', ['s3']))
         out.append(native_witness('C07/native/jsonpickle_tag_keys_round_trip', 'C07', 'replay/witness/c07_reserved_keys.py', 'C07-jsonpickle-tag-keys', ['tags']))
@@ -151,10 +155,10 @@ def bounded_for(jobname):
     return None
 
 
-def jobs_for(prop):
+def jobs_for(prop, tier='quick'):
     out = []
     for j in JOBS:
-        if prop not in j['props']:
+        if prop not in j['props'] or (j.get('tier') == 'thorough' and tier != 'thorough'):
             continue
         mod, fn, kw = j['job']
         cs = CASES.get(j.get('cases'))
